@@ -178,7 +178,10 @@ class PartialModel:
 
         if ignore_invalid:
             # validate data and keep only valid fields
-            data, fields, _ = validate_model(cls, obj)  # type: ignore
+            # (validators may modify the passed dict, so do not pass the original)
+            if isinstance(obj, BaseModel):
+                obj = obj.dict(exclude_none=True)  # type: ignore
+            data, fields, _ = validate_model(cls, dict(obj))  # type: ignore
             return cls.construct(_fields_set=fields, **data)  # type: ignore
 
         # parse a dict or another pydantic model
